@@ -1998,6 +1998,447 @@ theorem edge_polygon_roundtrip (close : V → V → Bool) (hrefl : ∀ v, close 
   rw [edgeLoops_chained close _ _ c1, c2]
   rfl
 
+/-! ## npshapes.NumpyPath2d: the numpy twin of `Path` -/
+
+private theorem npLoop_eq (curve3 : V → V → V → Except PErr (List V)) (curve4 : V → V → V → V → Except PErr (List V)) :
+    ∀ (els : List (Elem V)) (s : V),
+      npLoop curve3 curve4 s (els.flatMap Elem.verts) (els.map Elem.code) = approxElems curve3 curve4 s els := by
+  intro els
+  induction els with
+  | nil => intro s; rfl
+  | cons el r ih =>
+    intro s
+    cases el with
+    | lineTo e =>
+      simp only [List.flatMap_cons, List.map_cons, Elem.verts, Elem.code, List.singleton_append, npLoop, approxElems,
+        elemPiece, Elem.fin, ih]
+      simp
+    | moveTo e =>
+      simp only [List.flatMap_cons, List.map_cons, Elem.verts, Elem.code, List.singleton_append, npLoop, approxElems,
+        elemPiece, Elem.fin, ih]
+      simp
+    | curve3To e c =>
+      simp only [List.flatMap_cons, List.map_cons, Elem.verts, Elem.code, List.cons_append, List.nil_append, npLoop,
+        approxElems, elemPiece, Elem.fin, ih]
+      simp only [show ¬ ((2 : Nat) = 1 ∨ (2 : Nat) = 4) by decide, if_false, if_true]
+      cases curve3 s c e with
+      | error x => rfl
+      | ok l => cases l <;> rfl
+    | curve4To e c1 c2 =>
+      simp only [List.flatMap_cons, List.map_cons, Elem.verts, Elem.code, List.cons_append, List.nil_append, npLoop,
+        approxElems, elemPiece, Elem.fin, ih]
+      simp only [show ¬ ((3 : Nat) = 1 ∨ (3 : Nat) = 4) by decide, show ¬ ((3 : Nat) = 2) by decide, if_false, if_true]
+      cases curve4 s c1 c2 e with
+      | error x => rfl
+      | ok l => cases l <;> rfl
+
+/-- **`numpy_path_flat = path_flat`** (structure): for EVERY path - any command list, any curve callbacks - the command
+    loop of `NumpyPath2d.flattening` run on the flat arrays of the path (`_vertices`, `_commands` walked with a running
+    index) yields exactly what `Path._approximate` yields: same vertices, same order, same exceptions.  In particular a
+    curve directly after a `MOVE_TO` starts at the `MOVE_TO` location in both (seeded change C14-m4 breaks this). -/
+theorem numpy_path_flat (curve3 : V → V → V → Except PErr (List V)) (curve4 : V → V → V → V → Except PErr (List V))
+    (p : Path V) :
+    npApprox curve3 curve4 ⟨p.vertices, p.commands⟩ = approximate curve3 curve4 p := by
+  unfold npApprox approximate Path.commands Path.vertices
+  cases hp : p.elems with
+  | nil => rfl
+  | cons a r =>
+    simp only [List.map_cons]
+    have := npLoop_eq curve3 curve4 (a :: r) p.start
+    simp only [List.map_cons] at this
+    rw [this]
+
+/-- all control vertices lie in the xy-plane (what `NumpyPath2d` can represent) -/
+def Planar (p : Path V3) : Prop := ∀ v ∈ p.vertices, v.z = 0
+
+private theorem proj2_planar (v : V3) (h : v.z = 0) : proj2 v = v := by
+  cases v; simp only [proj2, V3.mk.injEq, true_and]; exact h.symm
+
+private theorem bez4_planar (p0 p1 p2 p3 : V3) (h0 : p0.z = 0) (h1 : p1.z = 0) (h2 : p2.z = 0) (h3 : p3.z = 0)
+    (t : Rat) : (bez4Point p0 p1 p2 p3 t).z = 0 := by
+  simp [bez4Point, V3.add, V3.sub, V3.smul, h0, h1, h2, h3]
+
+private theorem bez3_planar (p0 p1 p2 : V3) (h0 : p0.z = 0) (h1 : p1.z = 0) (h2 : p2.z = 0)
+    (t : Rat) : (bez3Point p0 p1 p2 t).z = 0 := by
+  simp [bez3Point, V3.add, V3.sub, V3.smul, h0, h1, h2]
+
+private theorem npCurve4_eq (cfg : FlatCfg) (d : Rat) (n : Nat) (hc : CfgOK cfg n) (hd : d ≠ 0) (p0 p1 p2 p3 : V3)
+    (h0 : p0.z = 0) (h1 : p1.z = 0) (h2 : p2.z = 0) (h3 : p3.z = 0) :
+    npCurve4 cfg d n p0 p1 p2 p3 = flatCurve4 cfg d n p0 p1 p2 p3 := by
+  unfold npCurve4 flatCurve4
+  simp only [hd, if_false]
+  cases htv : flatCurve4TV cfg d n p0 p1 p2 p3 with
+  | error x => rfl
+  | ok tv =>
+    simp only [Except.ok.injEq]
+    have hspec : FlatSpec ⟨bez4Point p0 p1 p2 p3, midTest d⟩ 0 1 n tv := by
+      unfold flatCurve4TV at htv
+      exact bezierFlat_sound _ _ (hc.sub _) cfg.relTol cfg.absTol p0 p3 n cfg.fuel tv
+        (bez4_zero p0 p1 p2 p3).symm (bez4_one p0 p1 p2 p3).symm hc.pos hc.rel0 hc.rel hc.abs htv
+    apply List.map_congr_left
+    intro q hq
+    rw [hspec.onCurve q hq]
+    exact proj2_planar _ (bez4_planar p0 p1 p2 p3 h0 h1 h2 h3 _)
+
+private theorem npCurve3_eq (cfg : FlatCfg) (d : Rat) (n : Nat) (hc : CfgOK cfg n) (hd : d ≠ 0) (p0 p1 p2 : V3)
+    (h0 : p0.z = 0) (h1 : p1.z = 0) (h2 : p2.z = 0) :
+    npCurve3 cfg d n p0 p1 p2 = flatCurve3 cfg d n p0 p1 p2 := by
+  unfold npCurve3 flatCurve3
+  simp only [hd, if_false]
+  cases htv : flatCurve3TV cfg d n p0 p1 p2 with
+  | error x => rfl
+  | ok tv =>
+    simp only [Except.ok.injEq]
+    have hspec : FlatSpec ⟨bez3Point p0 p1 p2, midTest d⟩ 0 1 n tv := by
+      unfold flatCurve3TV at htv
+      exact bezierFlat_sound _ _ (hc.sub _) cfg.relTol cfg.absTol p0 p2 n cfg.fuel tv
+        (bez3_zero p0 p1 p2).symm (bez3_one p0 p1 p2).symm hc.pos hc.rel0 hc.rel hc.abs htv
+    apply List.map_congr_left
+    intro q hq
+    rw [hspec.onCurve q hq]
+    exact proj2_planar _ (bez3_planar p0 p1 p2 h0 h1 h2 _)
+
+private theorem approxElems_congr (c3 c3' : V3 → V3 → V3 → Except PErr (List V3))
+    (c4 c4' : V3 → V3 → V3 → V3 → Except PErr (List V3)) :
+    ∀ (els : List (Elem V3)) (s : V3), s.z = 0 → (∀ v ∈ els.flatMap Elem.verts, v.z = 0) →
+      (∀ a b c, a.z = 0 → b.z = 0 → c.z = 0 → c3 a b c = c3' a b c) →
+      (∀ a b c e, a.z = 0 → b.z = 0 → c.z = 0 → e.z = 0 → c4 a b c e = c4' a b c e) →
+      approxElems c3 c4 s els = approxElems c3' c4' s els := by
+  intro els
+  induction els with
+  | nil => intro s _ _ _ _; rfl
+  | cons el r ih =>
+    intro s hs hv h3 h4
+    have hr : ∀ v ∈ r.flatMap Elem.verts, v.z = 0 := fun v hv' => hv v (by simp [List.flatMap_cons, hv'])
+    have hel : ∀ v ∈ el.verts, v.z = 0 := fun v hv' => hv v (by simp [List.flatMap_cons, hv'])
+    have hfin : el.fin.z = 0 := by
+      cases el <;> exact hel _ (by simp [Elem.verts, Elem.fin])
+    have hpiece : elemPiece c3 c4 s el = elemPiece c3' c4' s el := by
+      cases el with
+      | lineTo e => rfl
+      | moveTo e => rfl
+      | curve3To e c =>
+        simp only [elemPiece, h3 s c e hs (hel c (by simp [Elem.verts])) (hel e (by simp [Elem.verts]))]
+      | curve4To e c1 c2 =>
+        simp only [elemPiece, h4 s c1 c2 e hs (hel c1 (by simp [Elem.verts])) (hel c2 (by simp [Elem.verts]))
+          (hel e (by simp [Elem.verts]))]
+    simp only [approxElems, hpiece, ih el.fin hfin hr h3 h4]
+
+/-- **`NumpyPath2d(path).flattening(d, s) = path.flattening(d, s)`** for every planar path (z = 0: what the numpy class
+    stores), every `distance ≠ 0`, every `segments`, either twin: same vertex list, same exceptions.  (For
+    `distance == 0` they differ by design: `Path.flattening` raises ValueError at the first curve, `NumpyPath2d` has no
+    such guard.) -/
+theorem numpy_flat_eq_path_flat (cfg : FlatCfg) (d : Rat) (n : Nat) (hc : CfgOK cfg n) (hd : d ≠ 0) (p : Path V3)
+    (hp : Planar p) :
+    npFlat cfg d n (NpPath.ofPath proj2 p) = pathFlat cfg d n p := by
+  have hmap : p.vertices.map proj2 = p.vertices := by
+    have : ∀ v ∈ p.vertices, proj2 v = id v := fun v hv => proj2_planar v (hp v hv)
+    rw [List.map_congr_left this, List.map_id]
+  unfold npFlat NpPath.ofPath pathFlat
+  rw [hmap, numpy_path_flat]
+  unfold approximate
+  cases hpe : p.elems with
+  | nil => rfl
+  | cons a r =>
+    simp only
+    have hs : p.start.z = 0 := hp p.start (by simp [Path.vertices])
+    have hv : ∀ v ∈ (a :: r).flatMap Elem.verts, v.z = 0 := by
+      intro v hv'
+      exact hp v (by rw [Path.vertices, hpe]; exact List.mem_cons_of_mem _ hv')
+    rw [approxElems_congr _ (flatCurve3 cfg d n) _ (flatCurve4 cfg d n) (a :: r) p.start hs hv
+      (fun a b c ha hb hc' => npCurve3_eq cfg d n hc hd a b c ha hb hc')
+      (fun a b c e ha hb hc' he => npCurve4_eq cfg d n hc hd a b c e ha hb hc' he)]
+
+/-- `NumpyPath2d.reverse()` on the flat arrays of a path is the flat storage of `Path.reversed()` -/
+theorem numpy_reverse_eq (p : Path V) :
+    npReverse ⟨p.vertices, p.commands⟩ = ⟨p.reversed.vertices, p.reversed.commands⟩ := by
+  obtain ⟨hv, hc⟩ := reversed_flat p
+  unfold npReverse
+  cases hl : p.elems.getLast? with
+  | none =>
+    have : p.elems = [] := by
+      cases he : p.elems with
+      | nil => rfl
+      | cons a r => rw [he] at hl; simp [List.getLast?_eq_some_getLast] at hl
+    simp [Path.commands, Path.reversed, this]
+  | some lastEl =>
+    have hsplit : p.elems = p.elems.dropLast ++ [lastEl] := (List.dropLast_append_getLast? lastEl hl).symm
+    have hcl : p.commands.getLast? = some lastEl.code := by
+      simp [Path.commands, List.getLast?_map, hl]
+    rw [hcl]
+    simp only
+    rw [hl] at hv hc
+    cases lastEl with
+    | moveTo e =>
+      simp only [Elem.code, if_true] at hv hc ⊢
+      rw [hv, hc]
+      have h1 : p.vertices.dropLast = (⟨p.start, p.elems.dropLast, p.hasSub⟩ : Path V).vertices := by
+        have : p.vertices = (p.start :: p.elems.dropLast.flatMap Elem.verts) ++ [e] := by
+          rw [Path.vertices]
+          conv_lhs => rw [hsplit]
+          simp [List.flatMap_append, Elem.verts]
+        rw [this, List.dropLast_concat]
+        rfl
+      have h2 : p.commands.dropLast = (⟨p.start, p.elems.dropLast, p.hasSub⟩ : Path V).commands := by
+        simp [Path.commands, List.map_dropLast]
+      rw [h1, h2]
+    | lineTo e => simp only [Elem.code] at hv hc ⊢; simp [hv, hc]
+    | curve3To e c => simp only [Elem.code] at hv hc ⊢; simp [hv, hc]
+    | curve4To e c1 c2 => simp only [Elem.code] at hv hc ⊢; simp [hv, hc]
+
+/-! ### `NumpyPath2d.sub_paths()`: the index walk over the flat arrays -/
+
+/-- the flat arrays of a path: what `NumpyPath2d(path)` stores (before the projection) -/
+def flatNp (p : Path V) : NpPath V := ⟨p.vertices, p.commands⟩
+
+private def runs (s : V) (es : List (Elem V)) : List (Path V) := (⟨s, es, false⟩ : Path V).subPaths
+
+private theorem runs_snoc_move (s e : V) (l : List (Elem V)) :
+    runs s (l ++ [Elem.moveTo e]) = runs s l ++ [⟨e, [], false⟩] := by
+  unfold runs
+  rw [subPaths_eq_split, subPaths_eq_split]
+  simp only [splitMoves_append_move e [] (by simp) l, List.map_append, List.map_cons, List.map_nil]
+  simp
+
+private theorem runs_current (s : V) (done cur : List (Elem V))
+    (hdone : done = [] ∨ ∃ d' e0, done = d' ++ [Elem.moveTo e0]) (hcur : ∀ el ∈ cur, el.isMove = false) :
+    runs s (done ++ cur) = (runs s done).dropLast ++ [⟨endOf s done, cur, false⟩] := by
+  rcases hdone with rfl | ⟨d', e0, rfl⟩
+  · unfold runs
+    rw [subPaths_eq_split, subPaths_eq_split]
+    simp [splitMoves_noMoves cur hcur, splitMoves, endOf]
+  · rw [runs_snoc_move, List.dropLast_concat]
+    have hend : endOf s (d' ++ [Elem.moveTo e0]) = e0 := by simp [endOf, Elem.fin]
+    rw [hend]
+    unfold runs
+    rw [subPaths_eq_split, subPaths_eq_split, List.append_assoc]
+    simp only [List.singleton_append, splitMoves_append_move e0 cur hcur d', List.map_append, List.map_cons, List.map_nil]
+    simp
+
+private theorem verts_end (s : V) : ∀ (es : List (Elem V)),
+    ∃ init, s :: es.flatMap Elem.verts = init ++ [endOf s es] ∧ init.length = (es.flatMap Elem.verts).length := by
+  intro es
+  rcases List.eq_nil_or_concat es with rfl | ⟨es', el, rfl⟩
+  · exact ⟨[], by simp [endOf], rfl⟩
+  · rw [List.concat_eq_append]
+    have hend : endOf s (es' ++ [el]) = el.fin := by simp [endOf]
+    rw [hend]
+    cases el with
+    | lineTo e => exact ⟨s :: es'.flatMap Elem.verts, by simp [Elem.verts, Elem.fin], by simp [Elem.verts]⟩
+    | moveTo e => exact ⟨s :: es'.flatMap Elem.verts, by simp [Elem.verts, Elem.fin], by simp [Elem.verts]⟩
+    | curve3To e c => exact ⟨s :: (es'.flatMap Elem.verts ++ [c]), by simp [Elem.verts, Elem.fin], by simp [Elem.verts]⟩
+    | curve4To e c1 c2 =>
+      exact ⟨s :: (es'.flatMap Elem.verts ++ [c1, c2]), by simp [Elem.verts, Elem.fin], by simp [Elem.verts]⟩
+
+/-- the slices `append_sub_path()` takes for the run `cur` that follows `done` -/
+private theorem slices_of_run (s : V) (done cur post : List (Elem V)) :
+    slice (done.flatMap Elem.verts).length (((done ++ cur).flatMap Elem.verts).length + 1)
+        (s :: (done ++ cur ++ post).flatMap Elem.verts) = endOf s done :: cur.flatMap Elem.verts ∧
+    slice done.length (done ++ cur).length ((done ++ cur ++ post).map Elem.code) = cur.map Elem.code := by
+  constructor
+  · obtain ⟨init, hinit, hlen⟩ := verts_end s done
+    have : s :: (done ++ cur ++ post).flatMap Elem.verts =
+        init ++ ((endOf s done :: cur.flatMap Elem.verts) ++ post.flatMap Elem.verts) := by
+      simp only [List.flatMap_append]
+      rw [← List.cons_append, ← List.cons_append, hinit]
+      simp
+    rw [this, slice, ← hlen, List.drop_left]
+    have hl : (done ++ cur).flatMap Elem.verts = done.flatMap Elem.verts ++ cur.flatMap Elem.verts := by
+      simp [List.flatMap_append]
+    have hk : ((done ++ cur).flatMap Elem.verts).length + 1 - init.length =
+        (endOf s done :: cur.flatMap Elem.verts).length := by
+      rw [hl, List.length_append, hlen, List.length_cons]; omega
+    rw [hk, List.take_left]
+  · have : (done ++ cur ++ post).map Elem.code = done.map Elem.code ++ (cur.map Elem.code ++ post.map Elem.code) := by
+      simp
+    rw [this, slice]
+    have h1 : done.length = (done.map Elem.code).length := by simp
+    rw [h1, List.drop_left]
+    have hk : (done ++ cur).length - (done.map Elem.code).length = (cur.map Elem.code).length := by simp
+    rw [hk, List.take_left]
+
+private structure SubInv (p : Path V) (done cur : List (Elem V)) (st : NpSubSt V) : Prop where
+  hdone : done = [] ∨ ∃ d' e0, done = d' ++ [Elem.moveTo e0]
+  hcur : ∀ el ∈ cur, el.isMove = false
+  vs : st.vtxStart = (done.flatMap Elem.verts).length
+  cs : st.cmdStart = done.length
+  vx : st.vtx = ((done ++ cur).flatMap Elem.verts).length
+  cx : st.cmd = (done ++ cur).length
+  out : st.out = ((runs p.start done).dropLast).map flatNp
+
+private theorem len_fm_snoc (l : List (Elem V)) (el : Elem V) :
+    ((l ++ [el]).flatMap Elem.verts).length = (l.flatMap Elem.verts).length + el.verts.length := by
+  rw [List.flatMap_append, List.length_append, List.flatMap_cons, List.flatMap_nil, List.append_nil]
+
+private theorem step_move (np : NpPath V) (st : NpSubSt V) :
+    npSubStep np st 4 = ⟨st.vtx + 1, st.vtx + 1, st.cmd + 1, st.cmd + 1,
+      st.out ++ [⟨slice st.vtxStart (st.vtx + 1) np.vertices, slice st.cmdStart st.cmd np.commands⟩]⟩ := by
+  simp [npSubStep, npAppendSub]
+
+private theorem step_nonmove (np : NpPath V) (st : NpSubSt V) (el : Elem V) (h : el.isMove = false) :
+    npSubStep np st el.code = ⟨st.vtxStart, st.vtx + el.verts.length, st.cmdStart, st.cmd + 1, st.out⟩ := by
+  cases el with
+  | moveTo e => simp [Elem.isMove] at h
+  | lineTo e => simp [npSubStep, Elem.code, Elem.verts]
+  | curve3To e c => simp [npSubStep, Elem.code, Elem.verts]
+  | curve4To e c1 c2 => simp [npSubStep, Elem.code, Elem.verts]
+
+private theorem sub_fold (p : Path V) :
+    ∀ (post done cur : List (Elem V)) (st : NpSubSt V), p.elems = done ++ cur ++ post → SubInv p done cur st →
+      ∃ done' cur', done' ++ cur' = p.elems ∧
+        SubInv p done' cur' ((post.map Elem.code).foldl (npSubStep (flatNp p)) st) := by
+  intro post
+  induction post with
+  | nil => intro done cur st he hi; exact ⟨done, cur, by simpa using he.symm, hi⟩
+  | cons el r ih =>
+    intro done cur st he hi
+    rw [List.map_cons, List.foldl_cons]
+    by_cases hm : el.isMove = true
+    · -- finish the run `cur`, the MOVE_TO vertex starts the next one
+      obtain ⟨e, rfl⟩ : ∃ e, el = Elem.moveTo e := by
+        cases el with
+        | moveTo e => exact ⟨e, rfl⟩
+        | lineTo e => simp [Elem.isMove] at hm
+        | curve3To e c => simp [Elem.isMove] at hm
+        | curve4To e c1 c2 => simp [Elem.isMove] at hm
+      refine ih (done ++ cur ++ [Elem.moveTo e]) [] _ (by simp [he]) ?_
+      obtain ⟨sl1, sl2⟩ := slices_of_run p.start done cur (Elem.moveTo e :: r)
+      have hvert : (flatNp p).vertices = p.start :: (done ++ cur ++ Elem.moveTo e :: r).flatMap Elem.verts := by
+        simp only [flatNp, Path.vertices, he]
+      have hcmd : (flatNp p).commands = (done ++ cur ++ Elem.moveTo e :: r).map Elem.code := by
+        simp only [flatNp, Path.commands, he]
+      have hcode : (Elem.moveTo e : Elem V).code = 4 := rfl
+      have hlen := len_fm_snoc (done ++ cur) (Elem.moveTo e)
+      have hv1 : (Elem.moveTo e : Elem V).verts.length = 1 := rfl
+      rw [hcode, step_move]
+      refine ⟨Or.inr ⟨done ++ cur, e, rfl⟩, by simp, ?_, ?_, ?_, ?_, ?_⟩
+      · show st.vtx + 1 = _
+        rw [hlen, hv1, hi.vx]
+      · show st.cmd + 1 = _
+        rw [hi.cx]; simp only [List.length_append, List.length_cons, List.length_nil]
+      · show st.vtx + 1 = _
+        rw [List.append_nil, hlen, hv1, hi.vx]
+      · show st.cmd + 1 = _
+        rw [hi.cx]; simp only [List.length_append, List.length_cons, List.length_nil]
+      · show st.out ++ [_] = _
+        rw [hi.vs, hi.vx, hi.cs, hi.cx, hvert, hcmd, sl1, sl2, hi.out, runs_snoc_move, List.dropLast_concat,
+          runs_current p.start done cur hi.hdone hi.hcur]
+        simp [flatNp, Path.vertices, Path.commands]
+    · have hm' : el.isMove = false := by simpa using hm
+      refine ih done (cur ++ [el]) _ (by simp [he]) ?_
+      rw [step_nonmove _ _ _ hm']
+      have hlen := len_fm_snoc (done ++ cur) el
+      refine ⟨hi.hdone, ?_, hi.vs, hi.cs, ?_, ?_, hi.out⟩
+      · intro x hx
+        rcases List.mem_append.mp hx with h | h
+        · exact hi.hcur x h
+        · simp only [List.mem_singleton] at h; rw [h]; exact hm'
+      · show st.vtx + el.verts.length = _
+        rw [← List.append_assoc, hlen, hi.vx]
+      · show st.cmd + 1 = _
+        rw [hi.cx]; simp [Nat.add_assoc]
+
+/-- **`NumpyPath2d.sub_paths()` = `Path.sub_paths()`** on the flat arrays of ANY path (no well-formedness needed): the
+    index walk (`vtx_start_index`, `vtx_index`, `cmd_start_index`, `cmd_index`, slices of both arrays) returns the flat
+    arrays of exactly the sub-paths `Path.sub_paths()` yields, in order - except for the two documented differences:
+    a path without commands has no sub-path at all, and the empty sub-path after a trailing `MOVE_TO` is not returned. -/
+theorem numpy_sub_paths_eq (p : Path V) :
+    npSubPaths (flatNp p) =
+      match p.elems.getLast? with
+      | none => []
+      | some (.moveTo _) => (p.subPaths.dropLast).map flatNp
+      | some _ => p.subPaths.map flatNp := by
+  have hsub : p.subPaths = runs p.start p.elems := by
+    unfold runs; rw [subPaths_eq_split, subPaths_eq_split]
+  cases hl : p.elems.getLast? with
+  | none =>
+    have : p.elems = [] := by
+      cases he : p.elems with
+      | nil => rfl
+      | cons a r => rw [he] at hl; simp [List.getLast?_eq_some_getLast] at hl
+    simp [npSubPaths, flatNp, Path.commands, this]
+  | some lastEl =>
+    have hne : p.elems ≠ [] := by intro hc; rw [hc] at hl; simp at hl
+    have hcne : (flatNp p).commands ≠ [] := by simp [flatNp, Path.commands, hne]
+    have hcl : (flatNp p).commands.getLast? = some lastEl.code := by
+      simp [flatNp, Path.commands, List.getLast?_map, hl]
+    have hcontains : (flatNp p).commands.contains 4 = p.elems.any Elem.isMove := by
+      simp only [flatNp, Path.commands]
+      induction p.elems with
+      | nil => rfl
+      | cons a r ih => cases a <;> simp_all [Elem.code, Elem.isMove]
+    unfold npSubPaths
+    cases hc : (flatNp p).commands with
+    | nil => exact absurd hc hcne
+    | cons c0 cr =>
+      simp only
+      rw [← hc]
+      by_cases hany : p.elems.any Elem.isMove = true
+      · rw [hcontains, hany]
+        simp only [if_true]
+        obtain ⟨done, cur, hdc, hinv⟩ := sub_fold p p.elems [] [] ⟨0, 0, 0, 0, []⟩ (by simp)
+          ⟨Or.inl rfl, by simp, rfl, rfl, rfl, rfl, by simp [runs, Path.subPaths, Path.subPathsGo, Path.new]⟩
+        have hfold : (flatNp p).commands = p.elems.map Elem.code := rfl
+        rw [hfold] at hcl ⊢
+        rw [hcl]
+        have hrun := runs_current p.start done cur hinv.hdone hinv.hcur
+        obtain ⟨sl1, sl2⟩ := slices_of_run p.start done cur []
+        have hv : (flatNp p).vertices = p.start :: (done ++ cur ++ []).flatMap Elem.verts := by
+          simp [flatNp, Path.vertices, ← hdc]
+        have hcm : (p.elems.map Elem.code) = (done ++ cur ++ []).map Elem.code := by
+          simp [← hdc]
+        -- what `append_sub_path()` adds after the loop
+        have happ : (npAppendSub (flatNp p) ((p.elems.map Elem.code).foldl (npSubStep (flatNp p)) ⟨0, 0, 0, 0, []⟩)).out =
+            p.subPaths.map flatNp := by
+          have hi' := hinv
+          generalize ((p.elems.map Elem.code).foldl (npSubStep (flatNp p)) ⟨0, 0, 0, 0, []⟩) = stF at hi' ⊢
+          simp only [npAppendSub]
+          rw [hi'.vs, hi'.vx, hi'.cs, hi'.cx, hv, hfold, hcm, sl1, sl2, hi'.out, hsub, ← hdc, hrun]
+          simp [flatNp, Path.vertices, Path.commands]
+        cases lastEl with
+        | moveTo e =>
+          simp only [Elem.code, if_true]
+          -- the path ends with MOVE_TO: the current run is empty, `done` is the whole path
+          have hcur : cur = [] := by
+            rcases List.eq_nil_or_concat cur with h | ⟨c', x, h⟩
+            · exact h
+            · exfalso
+              rw [List.concat_eq_append] at h
+              have hx : p.elems.getLast? = some x := by rw [← hdc, h, ← List.append_assoc]; simp
+              rw [hl] at hx
+              have := hinv.hcur x (by rw [h]; simp)
+              simp only [Option.some.injEq] at hx
+              rw [← hx] at this
+              simp [Elem.isMove] at this
+          rw [hinv.out, hsub]
+          rw [hcur, List.append_nil] at hdc
+          rw [hdc]
+        | lineTo e =>
+          simp only [Elem.code, Option.some.injEq, show ¬ ((1 : Nat) = 4) by decide, if_false]
+          exact happ
+        | curve3To e c =>
+          simp only [Elem.code, Option.some.injEq, show ¬ ((2 : Nat) = 4) by decide, if_false]
+          exact happ
+        | curve4To e c1 c2 =>
+          simp only [Elem.code, Option.some.injEq, show ¬ ((3 : Nat) = 4) by decide, if_false]
+          exact happ
+      · have hany' : p.elems.any Elem.isMove = false := by simpa using hany
+        rw [hcontains, hany']
+        simp only [Bool.false_eq_true, if_false]
+        have hmf : ∀ el ∈ p.elems, el.isMove = false := by
+          intro el hel
+          by_contra hc'
+          have : p.elems.any Elem.isMove = true := List.any_eq_true.mpr ⟨el, hel, by simpa using hc'⟩
+          rw [hany'] at this; exact Bool.noConfusion this
+        have hlm : lastEl.isMove = false := hmf lastEl (List.mem_of_getLast? hl)
+        have hsp : p.subPaths = [⟨p.start, p.elems, false⟩] := by
+          rw [subPaths_eq_split, splitMoves_noMoves p.elems hmf]; rfl
+        cases lastEl with
+        | moveTo e => simp [Elem.isMove] at hlm
+        | lineTo e => simp [hsp, flatNp, Path.vertices, Path.commands]
+        | curve3To e c => simp [hsp, flatNp, Path.vertices, Path.commands]
+        | curve4To e c1 c2 => simp [hsp, flatNp, Path.vertices, Path.commands]
+
 /-! ## ties: the source text the hand model Model/FlattenPath.lean copies, re-extracted on every run -/
 
 section ties
@@ -2037,6 +2478,23 @@ def pathToolsKernel : List (String × String) :=
    ("single_paths", "for p in paths:\n    if p.has_sub_paths:\n        yield from p.sub_paths()\n    else:\n        yield p"),
    ("from_vertices", "_vertices = Vec3.list(vertices); if len(_vertices) < 2:\n    return Path(); path = Path(start=_vertices[0]); for vertex in _vertices[1:]:\n    if not path.end.isclose(vertex):\n        path.line_to(vertex); if close:\n    path.close(); return path"),
    ("from_hatch_edge_path.loops", "extrusion = ocs.uz if ocs else Z_AXIS; path = Path(); loop: Optional[Path] = None; for edge in edges:\n    next_segment: Optional[Path] = None\n    if isinstance(edge, LineEdge):\n        next_segment = line(edge)\n    elif isinstance(edge, ArcEdge):\n        if abs(edge.radius) > ABS_TOL:\n            next_segment = arc(edge)\n    elif isinstance(edge, EllipseEdge):\n        if not Vec2(edge.major_axis).is_null:\n            next_segment = ellipse(edge)\n    elif isinstance(edge, SplineEdge):\n        next_segment = spline(edge)\n    else:\n        raise TypeError(type(edge))\n    if next_segment is None:\n        continue\n    if loop is None:\n        loop = next_segment\n        continue\n    if loop.end.isclose(next_segment.start):\n        loop.append_path(next_segment)\n    elif loop.end.isclose(next_segment.end):\n        loop.append_path(next_segment.reversed())\n    elif loop.start.isclose(next_segment.end):\n        next_segment.append_path(loop)\n        loop = next_segment\n    elif loop.start.isclose(next_segment.start):\n        loop = loop.reversed()\n        loop.append_path(next_segment)\n    elif loop.is_closed:\n        path.extend_multi_path(loop)\n        loop = next_segment\n    else:\n        loop.append_path(next_segment); if loop is not None:\n    loop.close()\n    path.extend_multi_path(loop); return path")]
+
+/-- `npshapes.NumpyPath2d`: the methods the model copies (`npLoop`, `npSubPaths`, `npReverse`, `npExtend`, …) -/
+def numpyPathKernel : List (String × String) :=
+  [("__init__", "if path is None:\n    self._vertices = EMPTY_SHAPE\n    self._commands = NO_COMMANDS\n    return; vertices = [(v.x, v.y) for v in path.control_vertices()]; if len(vertices) == 0:\n    try:\n        vertices = [Vec2(path.start)]\n    except IndexError:\n        vertices = []; self._vertices = np.array(vertices, dtype=VertexNumpyType); self._commands = np.array(path.command_codes(), dtype=CommandNumpyType)"),
+   ("flattening", "if not len(self._commands):\n    return; vertices = self.vertices(); start = vertices[0]; yield start; index = 1; for cmd in self._commands:\n    if cmd == CMD_LINE_TO or cmd == CMD_MOVE_TO:\n        end_location = vertices[index]\n        index += 1\n        yield end_location\n    elif cmd == CMD_CURVE3_TO:\n        ctrl, end_location = vertices[index:index + 2]\n        index += 2\n        pts = Vec2.generate(Bezier3P((start, ctrl, end_location)).flattening(distance, segments))\n        next(pts)\n        yield from pts\n    elif cmd == CMD_CURVE4_TO:\n        ctrl1, ctrl2, end_location = vertices[index:index + 3]\n        index += 3\n        pts = Vec2.generate(Bezier4P((start, ctrl1, ctrl2, end_location)).flattening(distance, segments))\n        next(pts)\n        yield from pts\n    else:\n        raise ValueError(f'Invalid command: {cmd}')\n    start = end_location"),
+   ("sub_paths", "def append_sub_path() -> None:\n    s: Self = self.__class__(None)\n    s._vertices = vertices[vtx_start_index:vtx_index + 1]\n    s._commands = commands[cmd_start_index:cmd_index]\n    sub_paths.append(s); commands = self._commands; if len(commands) == 0:\n    return []; if CMD_MOVE_TO not in commands:\n    return [self]; sub_paths: list[Self] = []; vertices = self._vertices; vtx_start_index = 0; vtx_index = 0; cmd_start_index = 0; cmd_index = 0; for cmd in commands:\n    if cmd == CMD_LINE_TO:\n        vtx_index += 1\n    elif cmd == CMD_CURVE3_TO:\n        vtx_index += 2\n    elif cmd == CMD_CURVE4_TO:\n        vtx_index += 3\n    elif cmd == CMD_MOVE_TO:\n        append_sub_path()\n        vtx_index += 1\n        vtx_start_index = vtx_index\n        cmd_start_index = cmd_index + 1\n    cmd_index += 1; if commands[-1] != CMD_MOVE_TO:\n    append_sub_path(); return sub_paths"),
+   ("reverse", "commands = self._commands; if not len(self._commands):\n    return self; if commands[-1] == CMD_MOVE_TO:\n    self._commands = np.flip(commands[:-1]).copy()\n    self._vertices = np.flip(self._vertices[:-1, ...], axis=0).copy()\nelse:\n    self._commands = np.flip(commands).copy()\n    self._vertices = np.flip(self._vertices, axis=0).copy(); return self"),
+   ("extend", "if not len(paths):\n    return; if not len(self._commands):\n    first = paths[0]\n    paths = paths[1:]\nelse:\n    first = self; vertices: list[np.ndarray] = [first._vertices]; commands: list[np.ndarray] = [first._commands]; end: Vec2 = first.end; for next_path in paths:\n    if len(next_path._commands) == 0:\n        continue\n    if not end.isclose(next_path.start):\n        commands.append(np.array((CMD_MOVE_TO,), dtype=CommandNumpyType))\n        vertices.append(next_path._vertices)\n    else:\n        vertices.append(next_path._vertices[1:])\n    end = next_path.end\n    commands.append(next_path._commands); self._vertices = np.concatenate(vertices, axis=0); self._commands = np.concatenate(commands)"),
+   ("to_path", "vertices = [Vec3(v) for v in self._vertices]; commands = [Command(c) for c in self._commands]; return Path.from_vertices_and_commands(vertices, commands)"),
+   ("has_sub_paths", "return CMD_MOVE_TO in self._commands"),
+   ("commands", "vertices = self.vertices(); index = 1; for cmd in self._commands:\n    if cmd == CMD_LINE_TO:\n        yield LineTo(vertices[index])\n        index += 1\n    elif cmd == CMD_CURVE3_TO:\n        yield Curve3To(vertices[index + 1], vertices[index])\n        index += 2\n    elif cmd == CMD_CURVE4_TO:\n        yield Curve4To(vertices[index + 2], vertices[index], vertices[index + 1])\n        index += 3\n    elif cmd == CMD_MOVE_TO:\n        yield MoveTo(vertices[index])\n        index += 1"),
+   ("start", "return Vec2(self._vertices[0])"),
+   ("end", "return Vec2(self._vertices[-1])"),
+   ("is_closed", "if len(self._vertices) > 1:\n    return self.start.isclose(self.end); return False"),
+   ("clockwise", "if not self.has_clockwise_orientation():\n    self.reverse(); return self"),
+   ("counter_clockwise", "if self.has_clockwise_orientation():\n    self.reverse(); return self"),
+   ("CMD constants", "CMD_CURVE3_TO = int(Command.CURVE3_TO); CMD_CURVE4_TO = int(Command.CURVE4_TO); CMD_LINE_TO = int(Command.LINE_TO); CMD_MOVE_TO = int(Command.MOVE_TO)")]
 
 /-- `make_path` dispatch: entity class → handler (live `singledispatch` registry) -/
 def makePathDispatchKernel : List (String × String) :=
@@ -2082,6 +2540,10 @@ def modelledBuilders : List String :=
 
 /-- `Path` still is the class the model copies: every method of the list reads as it did -/
 theorem tie_path_methods : pathMethods = pathMethodsKernel := by rfl
+
+/-- `NumpyPath2d` still reads as the model copies it: one shared branch for `LINE_TO`/`MOVE_TO` that assigns
+    `end_location`, `start = end_location` at the end of the loop body, the index walk of `sub_paths`, `np.flip` in `reverse` -/
+theorem tie_numpy_path : numpyPathMethods = numpyPathKernel := by rfl
 
 /-- path/tools.py and `from_vertices` still read as the model copies them -/
 theorem tie_path_tools : pathTools = pathToolsKernel := by rfl
@@ -2153,6 +2615,19 @@ private def demoPath : Path V3 :=
 #guard demoPath.reversed.commands = [2, 4, 3, 1] && demoPath.reversed.vertices = demoPath.vertices.reverse
 -- to_multi_path / sub_paths round trip
 #guard ((Path.toMultiPath (⟨0, 0, 0⟩ : V3) demoPath.subPaths).subPaths.map Path.vertices) = demoPath.subPaths.map Path.vertices
+
+-- NumpyPath2d twin: same flattening as Path for a planar multi-path whose second sub-path BEGINS with a curve (C14-m4)
+#guard npFlat pyCfg (1/100) 4 (NpPath.ofPath proj2 demoPath) = pathFlat pyCfg (1/100) 4 demoPath
+#guard npFlat pyxCfg (1/100) 4 (NpPath.ofPath proj2 demoPath) = pathFlat pyCfg (1/100) 4 demoPath
+#guard (npSubPaths (flatNp demoPath)).map (fun s => s.commands) = [[1, 3], [2]]
+#guard (npSubPaths (flatNp demoPath)).map (fun s => s.vertices) = demoPath.subPaths.map Path.vertices
+#guard (npReverse (flatNp demoPath)).commands = [2, 4, 3, 1]
+-- a trailing MOVE_TO: Path.sub_paths yields the empty sub-path, NumpyPath2d.sub_paths does not
+#guard (npSubPaths (flatNp (((Path.new (⟨0, 0, 0⟩ : V3)).lineTo ⟨1, 0, 0⟩).moveTo ⟨2, 2, 0⟩))).length = 1
+example : Planar demoPath := by
+  intro v hv
+  simp [demoPath, Path.vertices, Path.new, Path.lineTo, Path.curve4To, Path.curve3To, Path.moveTo, Elem.verts] at hv
+  rcases hv with rfl | rfl | rfl | rfl | rfl | rfl | rfl | rfl <;> rfl
 
 private def tolX : Tol V3 := ⟨v3Isclose vecRelTol vecAbsTol, v3Isclose pathLinearRelTol pathLinearAbsTol⟩
 
